@@ -105,12 +105,13 @@ func (r *Response) sendBackResponse(
 }
 
 func createSignature(response *Response, samlResponse *samlp.ResponseType, key *rsa.PrivateKey, cert []byte, signatureAlgorithm string) error {
-	switch response.ProtocolBinding {
-	case PostBinding:
+	switch {
+	case response.ProtocolBinding != RedirectBinding || response.AcsUrl == "":
+		// POST binding, or a response that is handed back in the HTTP body: the assertion itself carries the signature
 		if err := createPostSignature(samlResponse, key, cert, signatureAlgorithm); err != nil {
 			return fmt.Errorf("failed to sign response: %w", err)
 		}
-	case RedirectBinding:
+	default:
 		sig, sigAlg, err := createRedirectSignature(samlResponse, key, cert, signatureAlgorithm, response.RelayState)
 		if err != nil {
 			return fmt.Errorf("failed to sign response: %w", err)
